@@ -38,7 +38,8 @@ Print Assumptions ALGO_inv_intake.
 Theorem ALGO_inv_get_latest : forall evl g w e force sides w',
   InvP evl g w -> (2 <= e)%nat -> get_latest w e force sides = ROk w' ->
   InvP evl g w' /\ (forall sd0, prov_of w' sd0 = prov_of w sd0) /\
-  (forall x sd0, x <> e -> getx w' x sd0 = getx w x sd0) /\ now (w_st w) <= now (w_st w').
+  (forall x sd0, x <> e -> getx w' x sd0 = getx w x sd0) /\ now (w_st w) <= now (w_st w') /\
+  (forall sd0, x_tfile (getx w' e sd0) = x_tfile (getx w e sd0)).
 Proof. exact get_latest_pres. Qed.
 Print Assumptions ALGO_inv_get_latest.
 
@@ -48,7 +49,10 @@ Theorem ALGO_inv_refresh_both : forall evl g w e w',
   (forall en, nth_error (ents (w_st w)) e = Some en -> is_discarded (e_ign en) = false) ->
   get_latest w e false [false; true] = ROk w' ->
   InvP evl g w' /\ ReadyS evl w' e false /\ ReadyS evl w' e true /\ (forall sd0, prov_of w' sd0 = prov_of w sd0) /\
-  (forall x sd0, x <> e -> getx w' x sd0 = getx w x sd0).
+  (forall x sd0, x <> e -> getx w' x sd0 = getx w x sd0) /\
+  (exists en en', nth_error (ents (w_st w)) e = Some en /\ nth_error (ents (w_st w')) e = Some en' /\ e_ign en' = e_ign en /\
+                  maxchg en' <= N.max (maxchg en) (now (w_st w'))) /\
+  now (w_st w) <= now (w_st w').
 Proof. exact get_latest_both. Qed.
 Print Assumptions ALGO_inv_refresh_both.
 
